@@ -3,7 +3,7 @@ from __future__ import annotations
 
 import importlib
 
-OP_MODULES = ["contracts.c05"]
+OP_MODULES = ["contracts.c05", "contracts.c06"]
 MONITOR_MODULES = ["contracts.c26"]
 
 
@@ -56,6 +56,7 @@ def forward_units(prop):
 #: which unit families each property draws on
 FAMILIES = {
     "C05": ["op"],
+    "C06": ["op"],
     "C25": ["monitor"],
     "C26": ["monitor"],
     "C27": ["monitor"],
